@@ -303,7 +303,8 @@ def r17_2(cx):
         n = cx.facts.tygraph.get(ty)
         if n and n['kind'] == 'dyn' and n.get('trait') in OBJ_TRAITS:
             srcs = [c['from'] for c in cx.facts.coercions if c['to'] == ty and c['from'] != ty]
-            cx.report('R17.2', ty, 'dyn-sources', len(set(srcs)) >= 3, '%d concrete types coerced into %s: %s' % (len(set(srcs)), ty, sorted(set(srcs))))
+            need = 3 if (n.get('trait') != 'util::prefilter::PrefilterI' or cx.config in ('default', 'logging', 'perf')) else 1
+            cx.report('R17.2', ty, 'dyn-sources', len(set(srcs)) >= need, '%d concrete types coerced into %s: %s' % (len(set(srcs)), ty, sorted(set(srcs))))
     cf, _ = cell_paths(control(), ['Searcher'])
     ctl(cx, 'R17.2', 'Cell field behind Arc<dyn Engine>', any(not e for _, _, e in cf))
 
